@@ -13,12 +13,13 @@ Relations judged per reported model (nothing else becomes a VIOLATION):
            the interval form |sum f c + sum t nu - c_final| <= sum f_q u_q c_q + u_f c_f; exchanger X: sum t nu_X = 0
   sign     f_q >= 0; dissolve-only t >= 0; precipitate-only t <= 0
   range    min <= value <= max for every fraction and transfer (with -range, |value| <= 1000)
-  minimal  with -minimal no reported set of phases + solutions strictly contains another reported set
+  minimal  with -minimal no reported set of phases + solutions strictly contains another reported set (lattice Z lists
+           a dispensable initial water - true fraction 0 or 2 % - so that the clause is exercised for solutions too)
   slack    the statement gives none; the declared solver tolerance (1e-10, or -tolerance / 1e-12 with
            -multiple_precision) absolute + 1e-11 relative (12-digit report) + half a unit of the last printed digit.
 "At least one model when the truth is admissible" is not in the statement: diagnostic / tally only.
 
-Calibration on the unchanged tree (R5) - six mechanisms break the statement; all are numerical failures of the
+Calibration on the unchanged tree (R5) - eight mechanisms break the statement; all are numerical failures of the
 double-precision cl1 solver whose status the callers ignore or cannot see (this build has no INVERSE_CL1MP).  Each has
 its own fingerprint (constants FP_* in the oracle); every other failure keeps the plain relation fingerprint:
   FP_MINIMAL       minimal_solve() ends with solve_with_mask() and ignores its status: after 'CL1: Roundoff errors' the
@@ -29,6 +30,10 @@ its own fingerprint (constants FP_* in the oracle); every other failure keeps th
                    vertex that violates a dissolve-only constraint / lies outside its own range
   FP_RANGE_MIX     >= 2 initial solutions: cl1 inside range() returns kode 0 for a non-optimal bound (value 0.316,
                    range 0.370..0.374; with -tolerance 1e-8 the same model gets 0.309..0.374)
+  FP_MINIMAL_TIGHT -tolerance 1e-12 / -multiple_precision: cl1 calls a feasible subset infeasible inside minimal_solve
+  FP_DELTA_TINY    (lattice Z) a listed initial water with fraction 1e-10 < f <= 1e-9: print_model prints every solution
+                   with |f| > tolerance and delta = (f*delta)/f, a quotient of sub-threshold numbers: Mg 4.012e-04 +
+                   -3.404e-05 at 5 % uncertainty (the library's own MaxFracErr says 8.5e-02); data/c18/delta_tiny.case
 Oracle corrections made during calibration (class b): a transfer with |value| > 1000 is not compared with its range
 (the manual defines min / max as the feasible values nearest -/+ 1000, i.e. clipped: Calcite / Aragonite pairs are
 unbounded); 'CL1: Roundoff errors' messages that belong to range() calls or to discarded candidate sets are no longer
@@ -76,6 +81,10 @@ UNCS = {
 PERTS = [None, ("Ca", 0.5, "final"), ("Ca", 2.0, "final"), ("Cl", 2.0, "final"), ("C(4)", 0.5, "final"),
          ("Na", 2.0, "first"), ("S(6)", 0.5, "first"), ("Mg", 2.0, "final"), ("K", 0.5, "final")]
 
+# mixing fractions of the dispensable-solution lattice Z: a listed initial water that the final water does not contain
+# at all, or holds 2 % of (below the 5 % default uncertainty), as first or as second initial solution
+ZFRACS = [[0.0, 1.0], [1.0, 0.0], [0.02, 0.98], [0.98, 0.02]]
+ZNAME = "Z dispensable initial solutions: water pair x {0, 2 %} fraction x position x truth x distractor phases x constraints x {-minimal, -range} x uncertainty x {exact, jittered}"
 BAL_ELS = ["Ca", "Mg", "Na", "K", "Cl", "S", "C", "Si", "Al"]
 _stoich = None
 DEADLINE = {"quick": 150, "thorough": 1500}        # hard deadlines (s): the run stops between bounds, exhaustive:false
@@ -285,6 +294,20 @@ def run_case(case):
              "models_after_bare_roundoff_message": sum(1 for a, b in info.get("pre", []) if b),
              "runs_truth_admissible_but_no_model": 1 if truth_in and n == 0 else 0,
              "values_beyond_range_maximum_not_judged": info.get("beyond_range_max", 0)}
+    if len(case["w"]) == 2 and min(case["f"]) <= 0.02:
+        # lattice Z: is the -minimal clause exercised for SOLUTIONS?  (a reported model that leaves a listed initial
+        # water out / keeps the dispensable one)
+        ini = ["s%d" % q for q in problem["inverse"]["solns"][:-1]]
+        disp = ini[case["f"].index(min(case["f"]))]
+        drops = sum(1 for st in info["sets"] if any(q not in st for q in ini))
+        keeps = sum(1 for st in info["sets"] if disp in st)
+        tally["Z_runs_dispensable_solution_listed"] = 1
+        tally["Z_models_without_a_listed_initial_solution"] = drops
+        tally["Z_models_with_the_dispensable_solution"] = keeps
+        if o["minimal"]:
+            tally["Z_minimal_runs_with_models"] = 1 if n else 0
+            tally["Z_minimal_models_without_a_listed_initial_solution"] = drops
+            tally["Z_minimal_models_with_the_dispensable_solution"] = keeps
     return {"case": case, "problems": problems, "ops": 2, "states": [state], "outcome": outcome, "script": script if problems else "",
             "sample": sample, "diagnostics": diags, "n_models": n, "tally": tally}
 
@@ -406,6 +429,32 @@ def lattices(tier):
                 for jit in (0, 1):
                     X.append({"w": ["A"], "f": [1.0], "truth": t, "cand": UNIVERSE + extra, "cons": "none", "opts": o, "jit": jit})
     L["X large candidate sets (9..12 phases)"] = X
+    # Z: dispensable initial solutions.  Two initial waters are listed under -solutions but the final water holds none
+    # (true fraction 0: a distractor solution) or 2 % of one of them, in either position; at least one distractor phase
+    # is among the candidates; with and without -minimal / -range.  This is where the -minimal clause speaks about
+    # SOLUTIONS: a model that keeps the dispensable water next to a reported model without it breaks the statement.
+    Z = []
+    ztr = [[["Calcite", 1]], [["Calcite", 1], ["CO2(g)", 1]], [["Gypsum", 1], ["Halite", 1]], [["Calcite", 1], ["CO2(g)", 1], ["Gypsum", 1]]]
+    zpairs = [["A", "B"], ["B", "C"], ["C", "A"]]
+    zdist = [["Sylvite"], ["Dolomite", "Halite"]]
+    zunc = ["U0", "U2"]
+    if not quick:
+        ztr += [[["Dolomite", 1], ["Calcite", -1]], [["Exch", 1], ["Calcite", 1]], [["Halite", 1]], [["Gypsum", 1], ["CO2(g)", -1]]]
+        zpairs += [["B", "A"], ["C", "B"], ["A", "C"]]
+        zdist += [["Chalcedony"], ["Sylvite", "Dolomite", "Halite"]]
+        zunc = list(UNCS)
+    for ws in zpairs:
+        for fs in ZFRACS:
+            for t in ztr:
+                tp = truth_transfers(t)
+                for ds in zdist:
+                    ds = [x for x in ds if x not in tp]
+                    for cons in ("none", "ok"):
+                        for o in ({"minimal": 1}, {}, {"range": 1, "minimal": 1}, {"range": 1}):
+                            for u in zunc:
+                                for jit in (0, 1) if quick else (0, 1, 2):
+                                    Z.append({"w": ws, "f": fs, "truth": t, "distr": ds, "cons": cons, "opts": o, "unc": u, "jit": jit})
+    L[ZNAME] = Z
     for k in L:
         L[k].sort(key=lambda c: (len(c["truth"]), len(c["w"]), len(c.get("distr", c.get("cand", []))), len(c.get("opts", {})), c.get("pert") is not None))
     return L
@@ -481,6 +530,7 @@ def run(tier):
         ev.bound(name, done, cases=len(cs))
     ev.extra["alphabet"] = {"waters": WATERS, "groups": {g: GROUPS[g][0] for g in GROUPS}, "distractors": DISTRACTORS,
                             "uncertainty_configs": {k: {"uncertainty": v[0], "balances": v[1]} for k, v in UNCS.items()},
+                            "dispensable_solution_fractions(Z)": ZFRACS,
                             "perturbations": PERTS, "constraint_modes": ["none", "ok", "bad", "force"],
                             "options": ["-range", "-minimal", "-tolerance", "-mineral_water false", "-multiple_precision"]}
     ev.extra["lattice_points"] = sum(len(c) for c in L.values())
@@ -491,7 +541,9 @@ def run(tier):
     real_pool.close()
     if ev.traces > 50 and done:
         if ev.not_completed > 0.5 * ev.traces or len(ev.outcomes) < 10 or stats["models_judged"] < ev.traces // 2 \
-                or not stats["models_with_range"] or not stats["models_minimal_option"] or not stats["models_with_constraints"]:
+                or not stats["models_with_range"] or not stats["models_minimal_option"] or not stats["models_with_constraints"] \
+                or not stats["Z_minimal_models_without_a_listed_initial_solution"] or not stats["Z_minimal_models_with_the_dispensable_solution"] \
+                or stats["Z_minimal_runs_with_models"] < 100:
             raise SystemExit("C18: vacuous run (%d of %d not completed, %d distinct outcomes, tally %r): the check is broken" % (
                 ev.not_completed, ev.traces, len(ev.outcomes), dict(stats)))
     return core.finish(ev, findings)
